@@ -216,7 +216,7 @@ def loops_rule(prog, rep):
         want = {"QFunction": "QFunction(name, args)", "QList": "QList(ls)", "QDict": "QDict(d)"}[cname]
         rep.check(len(rets) == 1 and norm(rets[0].value) == want, "LOOPS", fi.short, "result", want, f"parse returns `{norm(rets[0].value) if rets else ''}`", fi.loc())
     fi = prog.func("QFunction.interpret")
-    calls = [c for c in walk_with_nested_exprs(fi.node) if isinstance(c, ast.Call) and norm(c.func) == "functions[self.name]"]
+    calls = [c for c in walk_with_nested_exprs(fi.node) if isinstance(c, ast.Call) and prog.is_registry_value(c.func, fi) and "self.name" in norm(c.func if not isinstance(c.func, ast.Name) else single_def(fi, c.func.id))]
     ok = False
     md = None
     if len(calls) == 1 and len(calls[0].args) == 1 and isinstance(calls[0].args[0], ast.Starred) and not calls[0].keywords:
@@ -527,6 +527,34 @@ def values_rule(prog, rep):
     rep.floor("built-in arguments analysed", n, 25)
 
 
+def _first_match(prog, pt):
+    """_parse_token: `for t in qtypes: tok, rest = t.check(s)`; the first truthy tok ends the search (break, or return inside
+    the loop) and what is returned for it is ((t, tok), rest)  ->  (first-match ok, result ok, why)"""
+    from ..cfg import truth
+
+    loops = [l for l in walk_own(pt.node) if isinstance(l, ast.For) and norm(l.iter) == "qtypes" and isinstance(l.target, ast.Name)]
+    if len(loops) != 1:
+        return False, False, f"{len(loops)} loops over qtypes"
+    lp = loops[0]
+    tv = lp.target.id
+    scans = [a for a in ast.walk(lp) if isinstance(a, ast.Assign) and isinstance(a.value, ast.Call) and norm(a.value.func) == f"{tv}.check" and isinstance(a.targets[0], ast.Tuple) and len(a.targets[0].elts) == 2 and all(isinstance(x, ast.Name) for x in a.targets[0].elts)]
+    if len(scans) != 1:
+        return False, False, f"{len(scans)} scanner calls in the loop"
+    tok, rest = [x.id for x in scans[0].targets[0].elts]
+    g = cfg_of(pt)
+    head = g.node_of(lp)
+    # from the edge `tok` truthy, the loop head must not be reachable again
+    starts = [v for n in g.nodes if n.kind == "branch" for v, lab in g.succ[n.id] if truth(lab, tok) is True and any(n.ast is x or True for x in [0])]
+    starts = [v for n in g.nodes if n.kind == "branch" and any(n.ast is x for x in ast.walk(lp)) for v, lab in g.succ[n.id] if truth(lab, tok) is True]
+    if not starts:
+        return False, False, "no test of the scanned token inside the loop"
+    first = all(head not in g.reach_avoiding([v], include_start=True) for v in starts)
+    # returns reachable from there carry ((t, tok), rest)
+    rets = [n for n in g.nodes if n.kind == "stmt" and isinstance(n.ast, ast.Return) and any(n.id in g.reach_avoiding([v], include_start=True) for v in starts)]
+    res = bool(rets) and all(norm(r.ast.value) == f"(({tv}, {tok}), {rest})" for r in rets)
+    return first, res, "" if first else "the loop goes on after a scanner matched"
+
+
 def registry_rule(prog, rep):
     rep.rule("REGISTRY", "every registered query function takes its Datastore / TNamespace parameters first, in that order (the wrapper strips the injected arguments by position) and the wrappers forward all remaining positional arguments in order; qtypes lists exactly the subclasses of QToken, each defining check, parse and interpret")
     reg = prog.registry()
@@ -587,12 +615,10 @@ def registry_rule(prog, rep):
         rep.check(not miss, "REGISTRY", c.name, "defines check/parse/interpret", "", f"{c.name} does not define {miss}: the abstract method raises NotImplementedError", f"{mi.relpath}:{c.node.lineno}")
     # scanners are tried in the listed order, first match wins
     pt = prog.func("_parse_token")
-    t = norm(pt.node)
-    ok = "for t in qtypes: (token, string) = t.check(string) if token: break" in t or "for t in qtypes: token, string = t.check(string) if token: break" in t
-    rep.check(ok, "REGISTRY", pt.short, "first matching scanner wins", "", "_parse_token does not stop at the first scanner that recognises a token", pt.loc())
+    ok_first, ok_res, why_first = _first_match(prog, pt)
+    rep.check(ok_first, "REGISTRY", pt.short, "first matching scanner wins", "", f"_parse_token does not stop at the first scanner that recognises a token ({why_first})", pt.loc())
     rep.check(listed[:1] == ["QString"] and listed.index("QFunction") < listed.index("QVariable") if {"QString", "QFunction", "QVariable"} <= set(listed) else False, "REGISTRY", "qtypes", "order", "QString first; QFunction before QVariable", f"scanner order {listed}: a call `f(x)` would be read as the variable `f` / a quoted bracket as a list", f"{mi.relpath}:{getattr(qt, 'lineno', 0)}")
-    rets = [r for r in walk_own(pt.node) if isinstance(r, ast.Return)]
-    rep.check(any(norm(r.value) == "((t, token), string)" for r in rets), "REGISTRY", pt.short, "result", "((class, token), remainder)", "_parse_token does not return ((class, token text), remainder)", pt.loc())
+    rep.check(ok_res, "REGISTRY", pt.short, "result", "((class, token), remainder)", "_parse_token does not return ((class, token text), remainder) of the scanner that matched", pt.loc())
 
 
 def spacing_rule(prog, rep):
@@ -661,6 +687,8 @@ VARIANTS = [
     ("OK variable lookup with dict.get", Q2, "        val = None\n        if string in namespace:\n            val = namespace[string]\n        return QVariable(string, val)", "        return QVariable(string, namespace.get(string))", "ok"),
     ("B concat extends its first argument in place", "aw_transform/sort_by.py", "    events = events1 + events2\n    return events", "    events1 += events2\n    return events1", "VALUES"),
     ("B period_union clears the data of its input events (original defect)", "aw_transform/filter_period_intersect.py", "        event = deepcopy(event)\n        event.data = {}", "        event.data = {}", "VALUES"),
+    ("B scanning goes on after a match (the last scanner that matches wins)", Q2, "        if token:\n            break\n    if not token:", "        if token:\n            found = (t, token)\n    if not token:", "REGISTRY"),
+    ("B _parse_token returns the unconsumed input as remainder", Q2, "    return (t, token), string\n", "    return (t, token), string[len(token):]\n", "REGISTRY"),
     ("B statement loop stops at RETURN", Q2, "            interpret(var, val, namespace, datastore)\n", "            interpret(var, val, namespace, datastore)\n            if var.name == \"RETURN\":\n                break\n", "ASSIGN"),
     ("B non-empty statements starting with # skipped", Q2, "        if statement:\n", "        if statement and not statement.startswith(\"#\"):\n", "ASSIGN"),
     ("B union_no_overlap arguments swapped", QF, "    return union_no_overlap(events1, events2)", "    return union_no_overlap(events2, events1)", "REGISTRY"),
